@@ -102,11 +102,13 @@ HookInstrs(c, m, h, i, gen) ==
       e == h \o "_e"
       last == IF mode = "raise" /\ h # "postsave" THEN "die" ELSE "go"
   IN CASE mode \in {"sync", "raise"} ->
-            <<I(b, i, gen, ToString(m), "go", NoG, ""), I(e, i, 0, "", last, NoG, "")>>
+            <<I(b, i, gen, ToString(TidOf(c, m)), "go", NoG, ""), I(e, i, 0, "", last, NoG, "")>>
        [] mode = "async" ->
-            <<I(b, i, gen, ToString(m), "yield", NoG, ""), I(e, i, 0, "", "go", NoG, "")>>
+            <<I(b, i, gen, ToString(TidOf(c, m)), "yield", NoG, ""), I(e, i, 0, "", "go", NoG, "")>>
+       [] mode = "future" ->   \* the hook body runs in its own task: suspended before it starts and after it ends
+            <<I("", 0, 0, "", "yield", NoG, ""), I(b, i, gen, ToString(TidOf(c, m)), "go", NoG, ""), I(e, i, 0, "", "yield", NoG, "")>>
        [] OTHER ->  \* "gate"
-            <<I(b, i, gen, ToString(m), "gate", <<h, m, i>>, ""), I(e, i, 0, "", "go", NoG, "")>>
+            <<I(b, i, gen, ToString(TidOf(c, m)), "gate", <<h, m, i>>, ""), I(e, i, 0, "", "go", NoG, "")>>
 
 (* hooks of kind h, in registration order; a raising hook ends the list *)
 RECURSIVE HooksFrom(_, _, _, _, _)
@@ -190,7 +192,9 @@ Post(c, m, oc) ==
       stop1 == (oc \in ErrOutcomes /\ HooksDie(c, "onerr")) \/ AckDies(c, m, "when_received")
       stop2 == stop1 \/ HooksDie(c, "post") \/ AckDies(c, m, "when_executed")
       saved == oc # "nores"
-  IN (IF dyn THEN <<I("end", m, 0, oc, "go", NoG, "")>> ELSE <<>>)
+  IN (IF dyn /\ oc = "cancel" /\ mc.slowcancel
+      THEN <<I("", 0, 0, "", "yield", NoG, ""), I("", 0, 0, "", "yield", NoG, "")>> ELSE <<>>)
+  \o (IF dyn THEN <<I("end", m, 0, oc, "go", NoG, "")>> ELSE <<>>)
   \o DepCloseInstrs(c, m, oc)
   \o (IF oc \in ErrOutcomes THEN Hooks(c, m, "onerr") ELSE <<>>)
   \o (IF stop1 THEN <<>>
@@ -198,9 +202,9 @@ Post(c, m, oc) ==
         \o (IF AckDies(c, m, "when_executed") THEN <<>> ELSE Hooks(c, m, "post"))
         \o (IF stop2 THEN <<>>
             ELSE (IF saved
-                  THEN <<I("save_b", m, SaveFlags(oc), SaveCls(oc),
+                  THEN <<I("save_b", TidOf(c, m), SaveFlags(oc), SaveCls(oc),
                            IF c.bsusp THEN "gate" ELSE "go", <<"save", m, 0>>, "")>>
-                       \o <<I("save_e", m, 0, IF mc.savefail THEN "fail" ELSE "ok", "go", NoG, "")>>
+                       \o <<I("save_e", TidOf(c, m), 0, IF mc.savefail THEN "fail" ELSE "ok", "go", NoG, "")>>
                        \o (IF mc.savefail THEN <<>> ELSE Hooks(c, m, "postsave"))
                   ELSE <<>>)
               \o (IF AckT(c) = "when_saved" THEN AckInstrs(c, m) ELSE <<>>)
@@ -235,9 +239,10 @@ Run(c, m, P, r, gates, t) ==
                       [r EXCEPT !.grp = CapChain(c, r.grp, g, IF CtxDictShared THEN r.shared ELSE r.snap)]
                 [] i.fx = "start" /\ MsgC(c, m).timeout > 0 -> [r EXCEPT !.toAt = t + MsgC(c, m).timeout]
                 [] OTHER -> r
-        yv == CASE i.fx \in {"cap", "capd"} -> IF g > 0 THEN r0.grp[g] ELSE r0.snap
-                [] i.fx = "start" -> IF GraphTask(c, m) THEN r0.snap ELSE 0
-                [] OTHER -> i.y
+        yraw == CASE i.fx \in {"cap", "capd"} -> IF g > 0 THEN r0.grp[g] ELSE r0.snap
+                  [] i.fx = "start" -> IF GraphTask(c, m) THEN r0.snap ELSE 0
+                  [] OTHER -> -1
+        yv == IF yraw = -1 THEN i.y ELSE IF yraw = 0 THEN 0 ELSE TidOf(c, yraw)
         r1 == IF i.e = "" THEN r0 ELSE [r0 EXCEPT !.evs = Append(@, EvT(i.e, m, i.x, yv, i.s, t))]
         nxt == [r1 EXCEPT !.pc = @ + 1]
     IN CASE i.k = "go" -> Run(c, m, P, nxt, gates, t)
@@ -471,7 +476,7 @@ PromptReturn ==
      => now < DeadlineBase + PollPeriod + Slack
 TimeoutReturn ==
   (Quiescent /\ ~returned /\ ShutdownT(obs) >= 0 /\ cfg.W >= 0 /\ ~AllTakenDone(cfg, obs)
-     /\ now >= DeadlineBase + cfg.W + PollPeriod + Slack)
+     /\ now >= TimeoutBase(obs) + cfg.W + Slack)
      => (cfg.A > 0 /\ obs.nRun = cfg.A /\ "KF_C05_SaturatedNoTimeout" \in AllowedViol)
 TypeOK == /\ k.permits >= 0 /\ k.slots >= 0
           /\ k.ntaken <= k.arrived
